@@ -331,7 +331,11 @@ class Driver:
         w = self.w
         if w.server is None:
             return
-        w.sigterm()
+        if not w.sigterm():
+            # no handler installed yet: the default disposition kills the process
+            self.probe('sigterm.killed_before_handler')
+            w.crash()
+            return
         r = w.run(None, 600.0)
         if r == 'timeout':
             self.violate('C06', 'shutdown.hangs', 'server did not exit within 600 virtual s')
